@@ -1284,6 +1284,104 @@ def result_table(ix, e, depth=0, unwrap=("Option::Some", "Result::Ok")):
     return [([], e)]
 
 
+def expand_enum_conditions(ix, conds, depth=0):
+    """conditions in which `the classification value matches variant V` (an armpat on a local / block whose every value is a constructor) is
+    replaced by the conditions that select V: [[(cond, polarity)..]..] (one list per way of getting V).  Conditions on anything else stay."""
+    out = [[]]
+    for c_, pol in conds:
+        alts = None
+        if c_.get("k") == "armpat" and pol and depth < 3:
+            alts = _variant_conditions(ix, c_)
+        if alts:
+            new = []
+            for o in out:
+                for a_ in alts:
+                    for e_ in expand_enum_conditions(ix, a_, depth + 1):
+                        new.append(o + e_)
+            out = new
+        else:
+            out = [o + [(c_, pol)] for o in out]
+    return out
+
+
+def _variant_conditions(ix, armpat):
+    """for armpat(scrut, pattern): the condition lists under which scrut evaluates to a constructor matched by one of the pattern's alternatives
+    (None when scrut is not a value built from constructors by if / match / early returns)"""
+    scr = strip_try(armpat["scrut"])
+    if peel(scr).get("k") not in ("blockexpr", "match", "if", "local"):
+        return None
+    payload = None
+    s0 = peel(scr)
+    for _ in range(4):
+        if s0.get("k") == "local" and s0["id"] in _tree.LET_INITS and peel(_tree.LET_INITS[s0["id"]]).get("k") == "local":
+            s0 = peel(_tree.LET_INITS[s0["id"]])
+    if s0.get("k") == "local" and s0["id"] not in _tree.LET_INITS:
+        # the payload of a classification variant: `match kind { LineKind::Label(label) => .. match label { LabelKind::Output => .. } }`
+        payload = _payload_source(ix, s0["id"])
+        if payload is None:
+            return None
+    want = []
+    for alt in pat_alts(armpat["pat"]):
+        while alt.get("k") in ("pref", "pderef"):
+            alt = alt["pat"]
+        if alt.get("k") not in ("pvariant", "pconst", "ppath", "pstruct"):
+            return None
+        want.append(alt)
+    if payload is not None:
+        outer_scrut, outer_path, pos = payload
+        table = []
+        for cs_, lf in result_table(ix, strip_try(outer_scrut), unwrap=()):
+            lf = peel(lf)
+            if lf.get("k") == "ctor" and callee(lf) == outer_path and len(lf.get("args", [])) > pos:
+                table.append((cs_, lf["args"][pos]))
+        if not table:
+            return None
+    else:
+        table = result_table(ix, scr, unwrap=())
+    res = []
+    for cs_, lf in table:
+        lf = peel(lf)
+        lp = lf.get("path") if lf.get("k") == "def" else (callee(lf) if lf.get("k") == "ctor" else None)
+        if lp is None:
+            return None
+        for alt in want:
+            if lp == alt.get("path"):
+                # a payload pattern that is itself a variant (`Label(LabelKind::Output)`) must match the payload constructor too
+                subs = alt.get("subs") or []
+                ok = True
+                if subs and lf.get("k") == "ctor" and len(lf.get("args", [])) == len(subs):
+                    for sp_, a_ in zip(subs, lf["args"]):
+                        while sp_.get("k") in ("pref", "pderef"):
+                            sp_ = sp_["pat"]
+                        if sp_.get("k") in ("pvariant", "pconst", "ppath"):
+                            a0 = peel(a_)
+                            ap = a0.get("path") if a0.get("k") == "def" else (callee(a0) if a0.get("k") == "ctor" else None)
+                            if ap != sp_.get("path"):
+                                ok = False
+                if ok:
+                    res.append(cs_)
+                break
+    return res
+
+
+def _payload_source(ix, lid):
+    """(scrutinee, variant path, position) when the local is bound by a sub-pattern of a variant pattern of a match arm"""
+    for m in ix.nodes:
+        if m.get("k") != "match":
+            continue
+        for arm in m["arms"]:
+            for alt in pat_alts(arm["pat"]):
+                while alt.get("k") in ("pref", "pderef"):
+                    alt = alt["pat"]
+                if alt.get("k") == "pvariant":
+                    for i_, sp_ in enumerate(alt.get("subs", [])):
+                        while sp_.get("k") in ("pref", "pderef"):
+                            sp_ = sp_["pat"]
+                        if sp_.get("k") == "pbind" and canon(sp_["id"]) == canon(lid):
+                            return m["scrut"], alt["path"], i_
+    return None
+
+
 def function_results(f, ix):
     """result_table over every exit of a function body: the tail and every `return`, each with its path conditions"""
     out = []
